@@ -7,6 +7,7 @@
 #include <string.h>
 #include <algorithm>
 #include <map>
+#include <unordered_map>
 #include <set>
 #include <string>
 #include <vector>
@@ -96,6 +97,7 @@ struct BuildLogChain {
   std::map<std::string, uint64_t> true_hash;      // output -> hash of its statement's command
   std::string decoded;
   int clock = 1;
+  int fat_edge = -1;
   uint64_t sig = 0;
 
   BuildLogChain(Tape& tape, int stream, bool th, Viols& v, std::map<std::string, long>& nn, std::map<std::string, long>& ff)
@@ -117,6 +119,24 @@ struct BuildLogChain {
       manifest += "build";
       for (auto& o : outs) manifest += " " + EscPath(o);
       manifest += ": r" + std::to_string(e) + "\n";
+    }
+    if (C(12) == 0) {
+      // two fat names: with a few dozen records the log grows past the line reader's 256 KiB
+      // buffer, so records straddle a refill
+      std::vector<std::string> outs;
+      for (int o = 0; o < 2; o++) {
+        // (not one repeated character: the checks search these names in the log bytes)
+        size_t len = 5000 + C(1500);
+        std::string nm;
+        for (uint64_t b = 0; nm.size() < len; b++) { char h[20]; snprintf(h, sizeof h, "%016llx", (unsigned long long)Hash64(&b, sizeof b, 77 + o)); nm += h; }
+        outs.push_back("fat" + nm.substr(0, len) + "_" + std::to_string(idx++));
+      }
+      fat_edge = (int)edges.size();
+      edges.push_back(outs);
+      manifest += "rule rfat\n  command = fat $out\nbuild";
+      for (auto& o : outs) manifest += " " + EscPath(o);
+      manifest += ": rfat\n";
+      n["fat_names"]++;
     }
     if (C(40) == 0) {
       // one very long line (beyond the 256 KiB line reader buffer)
@@ -169,6 +189,7 @@ struct BuildLogChain {
     for (int i = 0; i < s.nrec; i++) {
       RecPlan rp;
       rp.edge = s.op == 3 ? (int)C(2) % (int)edges.size() : (int)C((uint32_t)edges.size());
+      if (s.op == 3 && fat_edge >= 0 && C(2) == 0) rp.edge = fat_edge;   // the bulk crosses the 256 KiB buffer as well
       rp.start = clock++; rp.end = clock++;
       rp.mtime = 1000000000000000000ll + (int64_t)C(1000000) * 1000;
       plan.push_back(rp);
@@ -349,6 +370,16 @@ struct BuildLogChain {
     }
     // never up to date without justification: an entry carrying the statement's
     // true hash must equal the latest line in the file that is byte-for-byte a record we issued
+    // index of the file: for every line, what follows its second tab -> where the last such line is
+    std::unordered_map<std::string, size_t> tail_at;
+    for (size_t ls = 0; ls < bytes.size();) {
+      size_t nl = bytes.find('\n', ls);
+      if (nl == std::string::npos) break;   // an unterminated tail is not a record
+      size_t t1 = bytes.find('\t', ls);
+      size_t t2x = t1 == std::string::npos || t1 >= nl ? std::string::npos : bytes.find('\t', t1 + 1);
+      if (t2x != std::string::npos && t2x < nl) tail_at[bytes.substr(t2x, nl + 1 - t2x)] = t2x;
+      ls = nl + 1;
+    }
     for (auto& l : loaded) {
       auto th = true_hash.find(l.out);
       if (th == true_hash.end() || th->second != l.hash) continue;
@@ -364,13 +395,8 @@ struct BuildLogChain {
         size_t t2 = il.line.find('\t', il.line.find('\t') + 1);
         std::string tail = il.line.substr(t2);
         size_t found = std::string::npos;
-        for (size_t pos = bytes.size(); pos > 0 && (pos = bytes.rfind(tail, pos - 1)) != std::string::npos; ) {
-          size_t ls = pos == 0 ? 0 : bytes.rfind('\n', pos - 1);
-          ls = ls == std::string::npos ? 0 : ls + 1;
-          std::string prefix = bytes.substr(ls, pos - ls);
-          if (std::count(prefix.begin(), prefix.end(), '\t') == 1) { found = pos; break; }
-          if (pos == 0) break;
-        }
+        auto hit = tail_at.find(tail);
+        if (hit != tail_at.end()) found = hit->second;
         if (found != std::string::npos && (!latest || found >= latest_pos)) { latest = &il; latest_pos = found; }
       }
       // K22: the record was torn inside its hash, and the first digits of the line
@@ -502,6 +528,7 @@ struct BuildLogChain {
     std::string before;
     bool had = k.ReadFile(".ninja_log", &before);
     BuildLogFold fold = FoldBuildLog(before, had);
+    if (before.size() > 262144) n["log_over_256k_loaded"]++;
     struct Loaded { std::string out; uint64_t hash; int start, end; int64_t mtime; };
     std::vector<Loaded> loaded;
     int status = -1;
